@@ -104,6 +104,11 @@ static int textlayer() {
         LweParams *lp = new_LweParams(17, a, b); std::ostringstream o; export_lweParams_toStream(o, lp); std::istringstream i(o.str()); LweParams *r = new_lweParams_fromStream(i);
         if (r->n != lp->n || r->alpha_min != a || r->alpha_max != b) { printf("LweParams(n=17, alpha_min=%.17g, alpha_max=%.17g) comes back as (n=%d, %.17g, %.17g)\n", a, b, r->n, r->alpha_min, r->alpha_max); return 1; }
         std::ostringstream o2; export_lweParams_toStream(o2, r); if (o2.str() != o.str()) { printf("re-export of LweParams(alpha_min=%.17g) differs\n", a); return 1; }
+        // the same object over the FILE transport (its own line reader): same bytes out, same object back
+        char *mb = 0; size_t ml = 0; FILE *w = open_memstream(&mb, &ml); export_lweParams_toFile(w, lp); fclose(w);
+        if (std::string(mb, ml) != o.str()) { printf("LweParams(alpha_min=%.17g): FILE export differs from the stream export\n", a); return 1; }
+        FILE *rd = fmemopen(mb, ml, "rb"); LweParams *rf = new_lweParams_fromFile(rd); fclose(rd); free(mb);
+        if (rf->n != lp->n || rf->alpha_min != a || rf->alpha_max != b) { printf("FILE transport: LweParams(n=17, alpha_min=%.17g, alpha_max=%.17g) comes back as (n=%d, %.17g, %.17g)\n", a, b, rf->n, rf->alpha_min, rf->alpha_max); return 1; }
     }
     for (int lambda : {80, 128}) {
         TFheGateBootstrappingParameterSet *p = new_default_gate_bootstrapping_parameters(lambda);
